@@ -219,6 +219,54 @@ func checkRangeSplit(p *core.Prog, r *core.Report) {
 		}
 	}
 	r.Check(okClip, "C13.R5", "Split/clip", "a chunk ends at the previous end plus the chunk size, clipped to the range's exclusive end (the unclipped value is used only where it was tested not to exceed it)", "the next chunk end can exceed the range's end or is not end+chunkSize", p.Pos(ep.Pos()))
+	// S3b: the FIRST chunk end (an aligned value computed before the loop) is not clipped by the loop; it lies inside the
+	// range only because the chunking loop is entered for ranges strictly longer than one chunk (start+chunk < end, and
+	// the aligned value is <= start+chunk) — or because it is clipped itself
+	okFirstEnd := false
+	for i, pred := range ep.Block().Preds {
+		if loop.Body[pred] {
+			continue
+		}
+		v0 := core.SkipConv(ep.Edges[i])
+		if c, ok := v0.(*ssa.Call); ok {
+			if b, ok := c.Call.Value.(*ssa.Builtin); ok && b.Name() == "min" {
+				for _, a := range c.Call.Args {
+					if isRecvField(a, endF) {
+						okFirstEnd = true
+					}
+				}
+			}
+		}
+	}
+	if !okFirstEnd {
+		isSize := func(v ssa.Value) bool {
+			bo, ok := core.SkipConv(v).(*ssa.BinOp)
+			return ok && bo.Op == token.SUB && isRecvField(bo.X, endF) && isRecvField(bo.Y, startF)
+		}
+		var longEdges []core.Edge
+		core.Instrs(fn, func(in ssa.Instruction) {
+			ifi, ok := in.(*ssa.If)
+			if !ok {
+				return
+			}
+			onT, onF, ok := core.CondRelation(ifi.Cond, isSize, func(v ssa.Value) bool { return v == ssa.Value(chunk) })
+			if !ok {
+				return
+			}
+			if onT == core.OrdGT {
+				longEdges = append(longEdges, core.Edge{From: ifi.Block(), Idx: 0})
+			}
+			if onF == core.OrdGT {
+				longEdges = append(longEdges, core.Edge{From: ifi.Block(), Idx: 1})
+			}
+		})
+		if len(longEdges) > 0 {
+			q := core.PathQuery{Fn: fn, CutEdge: func(e core.Edge) bool { return containsEdge(longEdges, e) }}
+			_, reach := q.CanReach(nil, func(x ssa.Instruction) bool { return x == loop.Header.Instrs[0] })
+			okFirstEnd = !reach
+		}
+	}
+	r.Check(okFirstEnd, "C13.R5", "Split/first-end-inside", "the first chunk's (aligned, unclipped) end cannot exceed the range: the chunking loop is entered only for ranges strictly longer than one chunk, or the first end is clipped with min(_, end)", "the loop can be entered for a range of at most one chunk while its first chunk end is not clipped", p.Pos(fn.Pos()))
 	// S4: the loop is left only once the chunk end reached the range's end, and what is returned includes the last chunk
 	okExit := len(loop.EarlyExits)+len(loop.BoundExits) > 0
 	for _, e := range append(append([]core.Edge{}, loop.EarlyExits...), loop.BoundExits...) {
